@@ -185,6 +185,26 @@ CHECKS['C04'] = dict(
          'specified files may be created and no pre-existing byte may change; non-monotonic times must raise.',
     design_ref='4 (C04)', technique='TLA+/TLC model checking of the configuration lattice + exhaustive spec-to-code replay with directory hashing',
     note=_NOTE + ' Degenerate singleton axes (one template / sample / channel) are not generated because the loader squeezes them.')
+_MERGE = ('Merge.tla: one action per write_* step of the Merger carrying the running offsets the code carries; TLC '
+          'proves for 3 probes (the smallest scope separating cumulative from previous-probe offsets; ties in '
+          'time inside and across probes, gapped ids, permuted channel maps) Conservation, '
+          'OrderedByTimeProbeIndex, IdsShifted, IdsDisjoint, ChannelBlocks, TemplateBlocks, PcIndShifted, '
+          'TfIndShifted, SpikeTemplateOnOwnBlock and the raw-index round trip of the ALF convention. Random '
+          'merges of 1..4 probes by the real Merger (wrappers log every write_* step; what the merger wrote is '
+          'snapshotted before the result is loaded) are validated by Trace_Merge: the machine is stepped on '
+          'the logged probes and the logged output directory is compared with it and judged by the P-layer; ')
+CHECKS['C11'] = dict(
+    text=_MERGE + 'C11 clauses: times, clusters, templates, amplitudes, conservation, order, offsets, disjointness, '
+         'cluster_probes, renumbered TSV metadata (present in all / some / none of the probes), inputs byte-identical, step order.',
+    design_ref='4 (C11)', technique='TLA+/TLC model checking + trace validation of real merges (step wrappers)',
+    note=_NOTE + ' All probes of one merge share their dtypes (they vary between merges); one-spike probes are not generated (squeezed to 0-d by the merger).')
+CHECKS['C12'] = dict(
+    text=_MERGE + 'C12 clauses: channel map and probe labels, geometry up to one x-translation per probe with '
+         'disjoint increasing x-ranges, template rows and blocks, spike template ids on their own block, index '
+         'tables shifted by channel / template counts, block-diagonal whitening / inverse / similarity (present '
+         'iff present in every probe), merged parameters, loadable result.',
+    design_ref='4 (C12)', technique='TLA+/TLC model checking + trace validation of real merges (step wrappers)',
+    note=_NOTE + ' Known finding (not repaired): zero x-extent of a preceding probe leaves no gap.')
 
 NOT_APPLICABLE = {}
 for e in ENGINES:
